@@ -288,6 +288,11 @@ loop:
 	case Shutdown:
 		return errorx.ErrEngineShutdown
 	}
+	if !c.opened {
+		// The connection has been closed inside OnTraffic (EventLoop.Close or a failed write),
+		// its descriptor is gone: don't touch it again.
+		return nil
+	}
 	_, _ = c.inboundBuffer.Write(c.buffer)
 	vhook.Ev("el.leftover", c, len(c.buffer), c.inboundBuffer.Buffered())
 	c.buffer = c.buffer[:0]
